@@ -122,8 +122,53 @@ three = [Functor(a, s, b) for a in rng.sample(two, 40) for s in '/\\' for b in a
 syn = atoms + rng.sample(two, min(len(two), 120 if tier == 'quick' else 600)) + three[:80 if tier == 'quick' else 400]
 for x, y in itertools.product(syn, syn):
     check_pair(x, y)
+# ---- one leaf changed: the consumed category differs from the argument slot in the feature of exactly one atom (every atom position in turn, so an atom
+# the matcher fails to compare shows as a rule firing across a feature clash)
+def set_leaf(c, i, f):
+    """(c with the feature of its i-th atom replaced by f, number of atoms)"""
+    if twin.is_atom(c):
+        return (Atom(c.base, f) if i == 0 else c), 1
+    l, nl_ = set_leaf(c.left, i, f)
+    r, nr_ = set_leaf(c.right, i - nl_, f)
+    return Functor(l, c.slash, r), nl_ + nr_
+
+
+def other_feature(f):
+    if lang == 'en':
+        pool = [UnaryFeature('dcl'), UnaryFeature('ng'), UnaryFeature('pss'), UnaryFeature('adj')]
+        return next(g for g in pool if not same(g, f))
+    pool = [TernaryFeature(('mod', 'nm'), ('form', 'base'), ('fin', 'f')), TernaryFeature(('mod', 'adn'), ('form', 'cont'), ('fin', 't'))]
+    return next(g for g in pool if not same(g, f))
+
+
+big = [c for c in inventory if len(twin.leaves(c)) >= 3]
+big = rng.sample(big, min(len(big), 120 if tier == 'quick' else 10 ** 6))
+n_perturbed = 0
+res_atom = Atom('S', UnaryFeature(None)) if lang == 'en' else Atom('S', TernaryFeature(('mod', 'nm'), ('form', 'base'), ('fin', 'f')))
+for t in big:
+    for i, f in enumerate(twin.leaves(t)):
+        ti, _ = set_leaf(t, i, other_feature(f))
+        n_perturbed += 1
+        check_pair(Functor(res_atom, '/', t), ti)            # forward application across one changed atom
+        check_pair(ti, Functor(res_atom, '\\', t))           # backward application
+        check_pair(Functor(res_atom, '/', t), Functor(ti, '/', res_atom))     # composition
+
+# ---- history: the same questions asked with freshly built, short-lived category objects while others stay alive (an answer must depend on the VALUES of
+# the two categories, not on which objects carried them earlier)
+kept = rng.sample(inventory, min(len(inventory), 20))
+texts = [str_spec(c) for c in rng.sample(inventory, min(len(inventory), 60))]
+n_stream = 0
+for rep in range(1500 if tier == 'quick' else 20000):
+    y = kept[rep % len(kept)]
+    x = Category.parse(texts[(rep * 7) % len(texts)])          # a new object every time, dropped after the question
+    n_stream += 1
+    check_pair(x, y)
+    check_pair(y, Category.parse(texts[(rep * 11) % len(texts)]))
+    del x
+
 print(json.dumps(dict(evaluations=n, distinct_nontrivial=len(distinct), results_checked=nres, failures=fails, wall=round(time.time() - t0, 1),
                       samples=[dict(x=a, y=b) for a, b in list(distinct)[:3]],
                       rule=(f'{lang}: {len(seen_pairs)} seen-rule pairs, {len(pairs)} pairs of the {len(inventory)} shipped categories '
                             f'({"seeded sample" if len(pairs) == budget else "all"}), {len(new)} derived x {len(inv_s)} shipped categories both ways, '
-                            f'{len(syn)}^2 synthetic pairs; distinct_nontrivial = distinct pairs with at least one result'))))
+                            f'{len(syn)}^2 synthetic pairs; {n_perturbed} single-atom feature changes of shipped categories with >= 3 atoms (application / composition across the change); '
+                            f'{n_stream} questions asked with freshly built short-lived objects; distinct_nontrivial = distinct pairs with at least one result'))))
